@@ -336,7 +336,8 @@ FormatOp(x, spec) ==
 ---------------------------------------------------------------------------
 (* evaluation *)
 Builtins == [len |-> Builtin("len"), mk |-> Builtin("mk")]
-Lookup(env, name) == IF name \in DOMAIN env THEN env[name]
+Unbound == [t |-> "unbound"]       \* a local variable (loop target of a generator) that is not assigned yet
+Lookup(env, name) == IF name \in DOMAIN env THEN (IF env[name].t = "unbound" THEN Err("UnboundLocalError") ELSE env[name])
                      ELSE IF name \in DOMAIN Builtins THEN Builtins[name]
                      ELSE Err("NameError")
 
@@ -449,27 +450,30 @@ CondVal(ifs, k, env) ==
     ELSE LET c == Eval(ifs[k], env) IN
          IF IsAbort(c) THEN c ELSE IF Truthy(c) THEN CondVal(ifs, k + 1, env) ELSE B(FALSE)
 
-(* list(generator) as [out |-> values produced, stop |-> B(TRUE) when exhausted normally, else the abort value] *)
+(* list(generator) as [out |-> values produced, stop |-> B(TRUE) when exhausted normally, else the abort value,
+   env |-> the generator's variables afterwards].  Loop targets are local variables of the generator and keep
+   their last value when an inner loop is entered again, so the environment is threaded through. *)
 RECURSIVE GenClause(_, _, _, _), GenItems(_, _, _, _, _, _)
 GenClause(g, ci, env, acc) ==
     LET it == Eval(g[3][ci][2], env) IN
-    IF IsAbort(it) THEN [out |-> acc, stop |-> it]
-    ELSE IF ~IsSeqV(it) THEN [out |-> acc, stop |-> TypeError]
+    IF IsAbort(it) THEN [out |-> acc, stop |-> it, env |-> env]
+    ELSE IF ~IsSeqV(it) THEN [out |-> acc, stop |-> TypeError, env |-> env]
     ELSE GenItems(g, ci, env, acc, IF it.t = "str" THEN [i \in 1 .. Len(it.v) |-> S(<<it.v[i]>>)] ELSE it.v, 1)
 GenItems(g, ci, env, acc, items, k) ==
-    IF k > Len(items) THEN [out |-> acc, stop |-> B(TRUE)]
+    IF k > Len(items) THEN [out |-> acc, stop |-> B(TRUE), env |-> env]
     ELSE LET cl   == g[3][ci]
              env2 == Bind(env, <<cl[1]>>, <<items[k]>>)
              c    == CondVal(cl[3], 1, env2)
-         IN IF IsAbort(c) THEN [out |-> acc, stop |-> c]
-            ELSE IF ~c.v THEN GenItems(g, ci, env, acc, items, k + 1)
+         IN IF IsAbort(c) THEN [out |-> acc, stop |-> c, env |-> env2]
+            ELSE IF ~c.v THEN GenItems(g, ci, env2, acc, items, k + 1)
             ELSE IF ci < Len(g[3]) THEN
                     LET r == GenClause(g, ci + 1, env2, acc) IN
-                    IF IsAbort(r.stop) THEN r ELSE GenItems(g, ci, env, r.out, items, k + 1)
+                    IF IsAbort(r.stop) THEN r ELSE GenItems(g, ci, r.env, r.out, items, k + 1)
             ELSE LET v == Eval(g[2], env2) IN
-                 IF IsAbort(v) THEN [out |-> acc, stop |-> v]
-                 ELSE GenItems(g, ci, env, Append(acc, v), items, k + 1)
-EvalGen(g, env) == GenClause(g, 1, env, <<>>)
+                 IF IsAbort(v) THEN [out |-> acc, stop |-> v, env |-> env2]
+                 ELSE GenItems(g, ci, env2, Append(acc, v), items, k + 1)
+(* the loop targets are local variables of the generator: unassigned until their clause is reached *)
+EvalGen(g, env) == GenClause(g, 1, Bind(env, [i \in 1 .. Len(g[3]) |-> g[3][i][1]], [i \in 1 .. Len(g[3]) |-> Unbound]), <<>>)
 
 ---------------------------------------------------------------------------
 (* compact form of a value for the exported tables (JSON): None "N", bools, ints, ["s", chars..],
@@ -629,6 +633,18 @@ Level(A, prev, n) == TLCEval([k1 \in 1 .. Len(A.names) |-> LevelAt(A, prev, n, k
 RECURSIVE Levels(_, _)
 Levels(A, n) == IF n = 0 THEN <<LeafLevel(A)>>
                 ELSE LET p == Levels(A, n - 1) IN Append(p, Level(A, p, n))
+
+(* the tree of a derivation: <<"L">> a name leaf, <<"C", i>> the i-th constant leaf, <<kind, d1>>, <<kind, d1, d2>>,
+   <<kind, d1, d2, d3>> an operator kind applied to derivations; names are numbered as in the enumeration *)
+RECURSIVE Build(_, _, _)
+Build(A, d, k1) ==
+    IF d[1] = "L" THEN Leaves(A, k1)[1]
+    ELSE IF d[1] = "C" THEN <<A.consts[d[2]], k1 - 1>>
+    ELSE LET x == Build(A, d[2], k1) IN
+         IF Len(d) = 2 THEN <<Mk1(d[1], x[1]), x[2]>>
+         ELSE LET y == Build(A, d[3], x[2] + 1) IN
+              IF Len(d) = 3 THEN <<Mk2(d[1], x[1], y[1]), y[2]>>
+              ELSE LET z == Build(A, d[4], y[2] + 1) IN <<Mk3(d[1], x[1], y[1], z[1]), z[2]>>
 
 Trees(level) == [i \in 1 .. Len(level) |-> level[i][1]]
 
